@@ -69,6 +69,10 @@ func c09MakeTemplate(dir string, when time.Time) {
 	os.Symlink("f", filepath.Join(dir, "lf"))
 	os.Symlink("missing", filepath.Join(dir, "ld"))
 	os.Symlink("d", filepath.Join(dir, "ldir"))
+	// a link to a directory somewhere else: "d/up/.." is e, not d (names are resolved by the kernel, not as text)
+	os.MkdirAll(filepath.Join(dir, "e", "deep"), 0o755)
+	os.WriteFile(filepath.Join(dir, "e", "g"), vfPattern(7, 0, 20), 0o644)
+	os.Symlink("../e/deep", filepath.Join(dir, "d", "up"))
 	vfFixTimes("", dir, when)
 }
 
@@ -111,6 +115,12 @@ func (e *c09Env) send(s *c09Side, q c09Req) (vfPkt, error) {
 		}
 		if strings.HasPrefix(x, "=") { // verbatim
 			return x[1:]
+		}
+		if strings.HasPrefix(x, "@") { // below the tree's root, text kept as it is (no lexical cleaning on the way)
+			if e.relative {
+				return x[1:]
+			}
+			return s.root + "/" + x[1:]
 		}
 		return s.path(x, e.relative)
 	}
@@ -323,6 +333,15 @@ func c09Table(e *c09Env) {
 	one := func(q c09Req) {
 		e.do(q, "")
 		e.restore()
+	}
+	// two-name requests whose names are related: the same name twice, the same name spelled differently, and two
+	// spellings that are the same text after cleaning but not the same file (".." behind a link to a directory)
+	for _, pair := range [][2]string{{"f", "f"}, {"@./f", "f"}, {"@d/../f", "f"}, {"@d/up/../g", "d/g"}, {"d/g", "@d/up/../g"}, {"ldir/x", "d/x"}, {"@d/up/../../f", "f"}, {"@d/up/../g", "@d/up/../g"}} {
+		for _, ext := range []string{"posix-rename@openssh.com", "hardlink@openssh.com"} {
+			one(c09Req{p: vfPkt{Type: rfExtended, Ext: ext, Path: pair[0], Path2: pair[1]}, label: ext + "/related-names/" + pair[0] + "/" + pair[1]})
+		}
+		one(c09Req{p: vfPkt{Type: rfRename, Path: pair[0], Path2: pair[1]}, label: "RENAME/related-names/" + pair[0] + "/" + pair[1]})
+		one(c09Req{p: vfPkt{Type: rfSymlink, Path: pair[0], Path2: pair[1]}, label: "SYMLINK/related-names/" + pair[0] + "/" + pair[1]})
 	}
 	for _, tgt := range []string{"f", "d", "e", "lf", "ld", "ldir", "missing", "d/x"} {
 		one(c09Req{p: vfPkt{Type: rfRemove, Path: tgt}, label: "REMOVE/" + tgt})
